@@ -93,6 +93,19 @@ CHECKS = {
             "errors), grid, metadata, cards and toy-PDF predictions; real NNLO / TMC / cross-section outputs go through the same sequences.",
             "Trusted: TLC, numpy tobytes, python == on cards. The order of observables inside the container is not part of the content.",
             "DESIGN.md 7/C15"),
+    "C17": ("model_checking",
+            "TLC linearity / missing-flavour theorems on the contraction formula (OutputIO.tla) + TLC-emitted integer operators, PDF tables "
+            "and couplings replayed through the real apply_pdf at logarithms 0,1,2 with exact comparison + nf policy of the coupling from "
+            "the spec against a closed-form one-loop running",
+            "TLC proves linearity in the PDF and independence of absent partons on the exact-rational contraction formula and emits, for key "
+            "sets up to pto 3 (incl. a key with a power of alpha_qed), integer operators, scale-dependent integer PDF tables, flavour masks "
+            "and scale-dependent rational couplings together with the exact prediction at ln(1/xi^2) in {0,1,2}^2; the real "
+            "apply_pdf_alphas_alphaqed_xir_xif is run with table-driven fakes that record the scales they are called at and TLC accepts "
+            "only if result and error equal the formula it recomputes. The alpha_s callable built by apply_pdf_theory is compared at ten "
+            "scales with a one-loop closed form that follows the nf policy TLC computes from the card (all schemes, NfFF, two mass sets, "
+            "matching ratios != 1).",
+            "Trusted: TLC, numpy, math. The running beyond one loop is eko's (trusted); only PTO=0 cards have a closed-form oracle.",
+            "DESIGN.md 7/C17"),
 }
 
 PENDING = {}
